@@ -248,4 +248,24 @@ theorem reached_bindFuel (env : Env) {fuel : Nat} {root : Mod} {inner : List Stm
     omega
   omega
 
+/-- The same without naming the predecessor of the fuel: a reached call has fuel left. -/
+theorem reached_bindFuel' (env : Env) {fuel : Nat} {root : Mod} {inner : List Stmt} {u : Stmt} {vis : List NodeId}
+    (h : Reached env fuel root (inner ++ [root.stmt]) u vis) (hu : isTracked u = false) :
+    1 ≤ fuel ∧ bindFuel env.reg root inner ≤ 2 * (fuel - 1) + 16 := by
+  have hg := reached_good env h
+  have hpos := need_pos vis hg.inv
+  have h1 : 1 ≤ fuel := by have := hg.fuel; omega
+  obtain ⟨k, rfl⟩ : ∃ k, fuel = k + 1 := ⟨fuel - 1, by omega⟩
+  exact ⟨h1, reached_bindFuel env h hu⟩
+
+/-- A substatement of a reached statement that is not being re-entered is reached, with one unit
+of fuel less. -/
+theorem Reached.child' {env : Env} {fuel : Nat} {root : Mod} {scope : List Stmt} {n c : Stmt} {vis : List NodeId}
+    (h : Reached env fuel root scope n vis) (hc : ¬ (isTracked n && vis.contains (nodeId root n)) = true)
+    (hcm : c ∈ n.subs) : Reached env (fuel - 1) root (n :: scope) c (Goyang.Lemmas.Fuel.visiting' root n vis) := by
+  have hg := reached_good env h
+  have hpos := need_pos vis hg.inv
+  obtain ⟨k, rfl⟩ : ∃ k, fuel = k + 1 := ⟨fuel - 1, by have := hg.fuel; omega⟩
+  exact Reached.call h hc (Callee.child hcm)
+
 end Goyang.Lemmas.Uses
